@@ -525,7 +525,9 @@ def gen_hook(rng, absent=0.25):
         return {"k": "ret"}
     if r < 0.8:
         # a third of the panics are genuine Go run-time errors (index out of range) rather than explicit panics
-        return {"k": "panic", "v": rng.randint(1, 9), "rt": rng.random() < 0.33}
+        # ... and a third panic with a value of a type that is not comparable (a slice)
+        kind = rng.choice(["plain", "rt", "nc"])
+        return {"k": "panic", "v": rng.randint(1, 9), "rt": kind == "rt", "nc": kind == "nc"}
     # any int is a legal exit status for cli.Exit: negative ones, and ones beyond a byte, too
     return {"k": "exit", "n": rng.choice([0, 1, 3, 7, 255, -1, -2, 256, -255, 2147483647, -2147483648])}
 
